@@ -531,6 +531,27 @@ func StratLazy(c *core.Ctx, rule string, pkgs []*packages.Package) {
 				name := c.FuncName(p, fd)
 				var eager []token.Pos
 				deferred := 0
+				// identifiers in call position (f(…), f[A, B](…)): only a call recurses now; the function handed over as a
+				// value (lazy.TailCall3(FoldRight[A, B], tail, zero, f)) is called later, by the trampoline
+				called := map[*ast.Ident]bool{}
+				ast.Inspect(fd.Body, func(x ast.Node) bool {
+					if call, ok := x.(*ast.CallExpr); ok {
+						f := ast.Unparen(call.Fun)
+						switch ix := f.(type) {
+						case *ast.IndexExpr:
+							f = ast.Unparen(ix.X)
+						case *ast.IndexListExpr:
+							f = ast.Unparen(ix.X)
+						}
+						if id, ok := f.(*ast.Ident); ok {
+							called[id] = true
+						}
+						if se, ok := f.(*ast.SelectorExpr); ok {
+							called[se.Sel] = true
+						}
+					}
+					return true
+				})
 				var walk func(n ast.Node, inLit bool)
 				walk = func(nd ast.Node, inLit bool) {
 					ast.Inspect(nd, func(x ast.Node) bool {
@@ -543,7 +564,7 @@ func StratLazy(c *core.Ctx, rule string, pkgs []*packages.Package) {
 						}
 						if id, ok := x.(*ast.Ident); ok {
 							if o, ok := info.Uses[id].(*types.Func); ok && o.Origin() == fn {
-								if inLit {
+								if inLit || !called[id] {
 									deferred++
 								} else {
 									eager = append(eager, id.Pos())
